@@ -27,7 +27,7 @@ RULE = (
     "every valid species mapping on parent chains, recount by the documented event model. "
     "Checked for reconcile_thl and reconcile_exhaustive (policies ALL and ANY): no exception, "
     "non-empty result, every output valid, package cost == independent recount == brute-force "
-    "minimum; generate_all == set of valid mappings, each exactly once, and the package cost of (up to 300 evenly spaced of) them == recount.  Non-trivial: object "
+    "minimum, also when the same input object is solved again after its costs were changed in place; generate_all == set of valid mappings, each exactly once, and the package cost of (up to 300 evenly spaced of) them == recount.  Non-trivial: object "
     "tree >= 3 leaves, species tree >= 2 leaves and some optimal reconciliation contains a "
     "duplication, transfer or loss; distinct by SHA-1 of the canonical JSON case."
 )
@@ -68,9 +68,11 @@ def run_job(job):
     for k, base in enumerate(gen.all_inputs(mo, ms)):
         if k % mod != idx:
             continue
-        for c in grid:
+        for j, c in enumerate(grid):
             case = dict(base)
             case["costs"] = c
+            # the changed-in-place step doubles the solver runs: one exhaustive case in eight takes it (all random cases do)
+            case["_second"] = (k + j) % 8 == 0
             yield case
 
 
@@ -84,6 +86,25 @@ def profiles_for(inst, case):
             _profile_cache.clear()
         _profile_cache[key] = dtl_profiles(inst)
     return _profile_cache[key]
+
+
+def second_costs(c):
+    """Another cost vector inside the region, derived from the first (no random choice)."""
+    hgt = c["HORIZONTAL_TRANSFER"]
+    c2 = dict(c)
+    c2["HORIZONTAL_TRANSFER"] = 1 if hgt == INF else (INF if hgt in (0, 1) else hgt - 1)
+    c2["DUPLICATION"] = c["DUPLICATION"] + 1
+    c2["FULL_LOSS"] = (c["FULL_LOSS"] + 1) % 3
+    c2["SPECIATION"] = min(c["SPECIATION"], c2["DUPLICATION"] + 2 * c2["FULL_LOSS"])
+    return c2
+
+
+def _set_costs_inplace(inp, costs):
+    from superrec2.model.reconciliation import EdgeEvent, NodeEvent
+
+    for key, value in costs.items():
+        event = getattr(NodeEvent, key) if hasattr(NodeEvent, key) else getattr(EdgeEvent, key)
+        inp.costs[event] = value
 
 
 def check(case):
@@ -112,6 +133,20 @@ def check(case):
                 if recount != opt:
                     raise Violation(f"{algo}.{policy}.cost!=oracle_min", observed=recount, expected=opt, extra={"mapping": m})
 
+    # the same input object solved again after its unit costs were changed in place (the way the
+    # package's own tests switch cost vectors): results must be optimal for the new costs
+    c2 = second_costs(inst.c)
+    opt2, _sols2, _n2 = dtl_optimum(inst, profiles, c=c2)
+    _set_costs_inplace(inp, c2)
+    for algo in ("thl", "exh") if case.get("_second", True) else ():
+        for policy in ("ALL", "ANY"):
+            for out in pkg.run_algo(algo, inp, policy):
+                m = pkg.mapping_names(out)
+                got = inst.rec_cost(m, c2) if inst.mapping_valid(m) is None else None
+                if got != opt2 or pkg.pkg_cost(out) != opt2:
+                    raise Violation(f"{algo}.{policy}.after-costs-changed-in-place", observed={"recount": got, "package": pkg.pkg_cost(out)},
+                                    expected=opt2, extra={"first_costs": inst.c, "second_costs": c2})
+    _set_costs_inplace(inp, inst.c)
     all_outputs = pkg.guarded(lambda: list(pkg.generate_all(inp)))
     gen_all = Counter(pkg.canon_output(o, labelled=False) for o in all_outputs)
     # the exhaustive solver ranks these with the package evaluator: recount an evenly spaced sample of them
